@@ -354,7 +354,51 @@ def run(ctx):
     ctx.exhaustive[R] = True
 
     # ------------------------------------------------------------------
-    R = "C20.write_time_validation"
+    rule_write_time_validation(ctx, "C20.write_time_validation")
+
+    # ------------------------------------------------------------------
+    R = "C20.delete_forgets_datatype"
+    ctx.rule(R, "FieldData.delete removes the value of a tag and its cached / "
+             "declared datatype, returns the value, and does nothing for an "
+             "absent tag: a tag set again later takes the default datatype "
+             "of its new value, not the datatype of the deleted one",
+             floor=4)
+    seg1 = repo.cls("line.segment.GFA1")
+    f_del = ctx.anchor("Line.delete", seg1.find_method("delete"))
+    for connected, has_dt, present in itertools.product(
+            (False, True), (False, True), (True, False)):
+        ctx.instance(R)
+        data = {"name": "a", "sequence": "*"}
+        if present:
+            data["xx"] = 1.5
+        dts = {"xx": "f"} if (has_dt and present) else {}
+        g = Abs(repo.cls("Gfa"), label="gfa") if connected else None
+        ln = Abs(seg1, label="line", vlevel=1, _gfa=g, _data=data,
+                 _datatype=dts, tagnames=[k for k in data
+                                          if k not in ("name", "sequence")],
+                 _virtual=False)
+        out = eval_function(repo, f_del, [ln, "xx"], hooks=TagHooks(repo))
+        ok = out[0] == "return" and "xx" not in ln.attrs["_data"] and \
+            "xx" not in ln.attrs["_datatype"] and \
+            out[1] == (1.5 if present else None) and \
+            ln.attrs["_data"].get("name") == "a"
+        ctx.oblige(ok)
+        if not ok:
+            ctx.violation(R, f_del.short,
+                          "connected=%s,datatype_declared=%s,present=%s" % (
+                              connected, has_dt, present),
+                          "outcome %r; afterwards _data has %r and _datatype "
+                          "has %r" % (out[0:2], sorted(ln.attrs["_data"]),
+                                      ln.attrs["_datatype"]))
+    ctx.exhaustive[R] = True
+    ctx.assume("output languages of str(int), repr(float) for finite values, "
+               "json.dumps (ensure_ascii) of a list/dict, upper-cased hexlify "
+               "are the regular expressions PY_* of rules/c20.py (CPython 3)")
+
+
+def rule_write_time_validation(ctx, R):
+    """shared by C18 (threshold of write-time validation) and C20"""
+    repo = ctx.repo
     ctx.rule(R, "Writer.field_to_s validates the text it is about to return "
              "when vlevel >= 2 (and not below), for values already stored as "
              "strings and for encoded objects", floor=8)
@@ -392,6 +436,3 @@ def run(ctx):
                           "validated %r; expected %s" % (
                               vals, [want_text] if vl >= 2 else "nothing"))
     ctx.exhaustive[R] = True
-    ctx.assume("output languages of str(int), repr(float) for finite values, "
-               "json.dumps (ensure_ascii) of a list/dict, upper-cased hexlify "
-               "are the regular expressions PY_* of rules/c20.py (CPython 3)")
